@@ -135,6 +135,7 @@ var namesFree = []string{"host.example.org.", "www.notexcluded.test.", "xexclude
 
 type handlerKey struct {
 	cfg, client, excl string
+	form              int // how the prefix list is written (cfg "wkp": listed | omitted | every entry unusable)
 }
 
 type decRun struct {
@@ -171,19 +172,26 @@ func newDecRun(res *vh.Result, seed int64) *decRun {
 			_, ipn, _ := net.ParseCIDR(p)
 			r.pfx[cfg] = append(r.pfx[cfg], ipn)
 		}
-		for _, client := range []string{"nets", "netsInt", "open"} {
-			for _, excl := range []string{"explicit", "default"} {
-				c := config.DNS64Config{Prefixes: ps, ExcludeZones: excludedZones}
-				switch client {
-				case "nets":
-					c.ClientNetworks = []string{"198.51.100.0/24", "2001:db8:c11e::/48"}
-				case "netsInt":
-					c.ClientNetworks = []string{"198.51.100.0/24", "2001:db8:c11e::/48", "127.0.0.255/32"}
+		forms := [][]string{ps}
+		if cfg == "wkp" {
+			// the well-known prefix is also what an empty list and a list of unusable entries fall back to
+			forms = append(forms, nil, []string{"not-a-prefix", "2001:db8::/33", "64:ff9b::/97"})
+		}
+		for fi, form := range forms {
+			for _, client := range []string{"nets", "netsInt", "open"} {
+				for _, excl := range []string{"explicit", "default"} {
+					c := config.DNS64Config{Prefixes: form, ExcludeZones: excludedZones}
+					switch client {
+					case "nets":
+						c.ClientNetworks = []string{"198.51.100.0/24", "2001:db8:c11e::/48"}
+					case "netsInt":
+						c.ClientNetworks = []string{"198.51.100.0/24", "2001:db8:c11e::/48", "127.0.0.255/32"}
+					}
+					if excl == "explicit" {
+						c.ExcludeANetworks = exclNets
+					}
+					r.hs[handlerKey{cfg, client, excl, fi}] = newDNS64(c)
 				}
-				if excl == "explicit" {
-					c.ExcludeANetworks = exclNets
-				}
-				r.hs[handlerKey{cfg, client, excl}] = newDNS64(c)
 			}
 		}
 	}
@@ -231,6 +239,9 @@ func (r *decRun) concretise(c dCase) *concrete {
 	// handler family and client address
 	x.hk.cfg = c.Cfg
 	x.hk.excl = []string{"explicit", "default"}[rng.Intn(2)]
+	if c.Cfg == "wkp" {
+		x.hk.form = rng.Intn(3) // listed | omitted | every entry unusable
+	}
 	port := 1024 + rng.Intn(60000)
 	switch {
 	case q.Internal == 1:
@@ -567,7 +578,13 @@ func (r *decRun) runCase(c dCase) {
 		sc.mark = x.mark
 	}
 	req := x.request()
-	rep := serve(ctx, d, x.client, req, sc)
+	// one case in three is served as the worker's replay of a query an inline-only pass declined: the model has
+	// no such dimension because no decision may depend on it
+	replayPass := x.rng.Intn(3) == 0
+	if replayPass {
+		r.res.Count("served_as_replay_pass", 1)
+	}
+	rep := serveOn(ctx, d, x.client, req, sc, replayPass)
 	if rep == nil {
 		r.res.Skip("no reply for case %d", c.Idx)
 		return
